@@ -28,6 +28,8 @@ pub enum StateSpaceError {
     ZeroDimensionUnbounded,
     /// Below the least angular bound
     InvalidAngularDistance { lower: f64 },
+    /// The centre of a rotation bound is a zero-magnitude quaternion, which is not a rotation.
+    InvalidCenterRotation,
 }
 impl fmt::Display for StateSpaceError {
     fn fmt(&self, f: &mut fmt::Formatter<'_>) -> fmt::Result {
@@ -50,6 +52,9 @@ impl fmt::Display for StateSpaceError {
                     f,
                     "Maximum angle cannot be negative or less than zero. Provided: {lower}."
                 )
+            }
+            Self::InvalidCenterRotation => {
+                write!(f, "Center rotation is a zero-magnitude quaternion.")
             }
         }
     }
